@@ -64,6 +64,9 @@ impl<T> core::ops::Deref for Rc<T> {
     fn deref(&self) -> (r: &T) ensures *r == self@ { unimplemented!() }
 }
 
+/// std::thread::panicking(): whether this thread is unwinding — either answer is possible wherever a guard is dropped
+pub assume_specification[ std::thread::panicking ]() -> (r: bool);
+
 // ===================================================================== WorkerHandleAccept (C01, C02, C08)
 //@check_struct file=actix-server/src/worker.rs name=WorkerHandleAccept fields=idx,conn_tx,counter
 //@extract_type file=actix-server/src/worker.rs item="struct WorkerHandleAccept"
@@ -115,7 +118,7 @@ self.clone_()
 }
 
 impl WorkerCounterGuard {
-//@extract file=actix-server/src/worker.rs item="impl Drop for WorkerCounterGuard / fn drop" props=C02,C03 name=worker::WorkerCounterGuard::drop trace_calls=wake
+//@extract file=actix-server/src/worker.rs item="impl Drop for WorkerCounterGuard / fn drop" props=C02,C03,C08 name=worker::WorkerCounterGuard::drop trace_calls=wake
 //@spec
     requires true,
 //@insert fn_end=1
